@@ -914,6 +914,12 @@ def _where_arg_values(files, fn, e, depth=0):
         return out
     if k == "Expr::MethodCall" and e["method"]["sym"] in ("clone", "to_token_stream", "into_token_stream"):
         return _where_arg_values(files, fn, e["receiver"], depth + 1)
+    if k in ("Expr::Call", "Expr::MethodCall"):
+        # a helper of the same file that builds the clause: what its body yields
+        nm_ = (A.path_last(e["func"]) if A.kind(e["func"]) == "Expr::Path" else None) if k == "Expr::Call" else e["method"]["sym"]
+        hs = [g for g in A.functions(fn.file) if g.name == nm_ and g.block is not None and g is not fn]
+        if len(hs) == 1 and _tail_of(hs[0].block["stmts"]) is not None:
+            return _where_arg_values(files, hs[0], _tail_of(hs[0].block["stmts"]), depth + 1)
     if k == "Expr::Path" and "::" not in (A.path_str(e) or "::"):
         nm = A.path_str(e)
         b = TY.resolve(fn, nm, (A.span_of(e) or [0])[0])
